@@ -457,6 +457,12 @@ func violation(class, what string, devs string, c *Case, extra map[string]any) {
 		for _, d := range strings.Split(devs, ",") {
 			id := "C14-" + d
 			if lib.HasKnown(knownList, id) {
+				if !strings.Contains(devs, ",") {
+					rep.Count("known.alone."+d, 1) // this deviation is the only one named for the object
+					if os.Getenv("VERIF_DEBUG") == d {
+						fmt.Fprintln(os.Stderr, "ALONE", d, class, r["text"], "|", r["reprint"], "|", r["error"], "|", c.line())
+					}
+				}
 				rep.Add(lib.Finding{Kind: "known", Class: d + ":" + class, What: what, Replay: r, KnownID: id})
 				return
 			}
